@@ -648,8 +648,8 @@ func (p *Process) handleOutput(pipe io.ReadCloser, output string, handler func(m
 		p.checkElevatedProcOutput(line)
 		handler(strings.TrimSuffix(line, "\n"))
 	}
-	verif.Signal("outdone:" + p.getName())
 	close(done)
+	verif.Signal("outdone:" + p.getName())
 }
 
 func (p *Process) checkElevatedProcOutput(line string) {
